@@ -57,6 +57,10 @@ def run(prog, chk):
     chk.rule(strops.check_for, prog, chk, "C08")  # A14.str-ops: how this property's strings are cut up is a reviewed, frozen inventory
     chk.rule(strops.blank_only_separators, prog, chk)  # a pair / list cut at blanks is cut at tabs and newlines too
     chk.rule(strops.empty_test_before_trim, prog, chk)  # pieces are tested for emptiness after trimming, not before
+    from props import C19 as _C19
+    chk.rule(_C19.text_not_altered, prog, chk)  # what decides whether an element's content is "only text" (and the shape is then laid out and counted) reads the text as written: a trimmed / filtered copy sends `<rect ..>NEWLINE</rect>` down the container path, where it has no box
+    from props import geomalg as _ga
+    chk.rule(_ga.check_extent_seeds, prog, chk)  # the extent of a polyline / polygon covers points at negative coordinates
 
 
 def _lit(body, t, i):
